@@ -1011,6 +1011,11 @@ HMCIstaccess(accrec_t *access_rec, /* IN: access record to fill in */
                 info->ddims[j].distrib_type = (int32)(0xff & info->ddims[j].flag);
                 info->ddims[j].unlimited    = (int32)(0xff & ((uint32)(info->ddims[j].flag >> 8)));
 
+                /* a chunk length that is not positive cannot come from a well-formed header
+                   (short read, damaged file): refuse instead of dividing by it */
+                if (info->ddims[j].chunk_length <= 0 || info->ddims[j].dim_length < 0)
+                    HGOTO_ERROR(DFE_BADLEN, FAIL);
+
                 info->ddims[j].num_chunks = info->ddims[j].dim_length / info->ddims[j].chunk_length;
                 /* check to see if need to increase # of chunks along this dim*/
                 if ((odd_size = (info->ddims[j].dim_length % info->ddims[j].chunk_length)))
